@@ -20,6 +20,11 @@ impl Matchers {
     // this is not a true mut from ref, we use a cell here
     #[allow(clippy::mut_from_ref)]
     unsafe fn get(&self) -> &mut nucleo_matcher::Matcher {
+        #[cfg(nucleo_verif)]
+        crate::verif::hb::plain_write(
+            self.0[rayon::current_thread_index().unwrap()].get() as usize,
+            "Matchers::get",
+        );
         &mut *self.0[rayon::current_thread_index().unwrap()].get()
     }
 }
@@ -156,6 +161,8 @@ impl<T: Sync + Send + 'static> Worker<T> {
     }
 
     pub(crate) unsafe fn run(&mut self, pattern_status: pattern::Status, cleared: bool) {
+        #[cfg(nucleo_verif)]
+        crate::verif::point("run.begin");
         self.running = true;
         self.was_canceled = false;
 
@@ -169,6 +176,8 @@ impl<T: Sync + Send + 'static> Worker<T> {
         if self.pattern.is_empty() {
             self.reset_matches();
             self.process_new_items_trivial();
+            #[cfg(nucleo_verif)]
+            crate::verif::point("run.before_notify_check");
             if self.should_notify.load(atomic::Ordering::Relaxed) {
                 (self.notify)();
             }
@@ -207,6 +216,8 @@ impl<T: Sync + Send + 'static> Worker<T> {
             self.process_new_items(&unmatched);
         }
 
+        #[cfg(nucleo_verif)]
+        crate::verif::point("run.after_score");
         let canceled = par_quicksort(
             &mut self.matches,
             |match1, match2| {
@@ -243,11 +254,17 @@ impl<T: Sync + Send + 'static> Worker<T> {
             &self.canceled,
         );
 
+        #[cfg(nucleo_verif)]
+        crate::verif::point("run.after_sort");
         if canceled {
+            #[cfg(nucleo_verif)]
+            crate::verif::probe("run.canceled");
             self.was_canceled = true;
         } else {
             self.matches
                 .truncate(self.matches.len() - take(unmatched.get_mut()) as usize);
+            #[cfg(nucleo_verif)]
+            crate::verif::point("run.before_notify_check");
             if self.should_notify.load(atomic::Ordering::Relaxed) {
                 (self.notify)();
             }
